@@ -31,7 +31,7 @@ GenNext ==
           /\ Issue(op, ks)
           /\ hist' = Append(hist, [a |-> "cmd", op |-> op, ks |-> ks, vals |-> cmds'[Len(cmds')].vals,
                                    exp |-> cmds'[Len(cmds')].exp, after |-> ref'])
-     \/ (\E n \in Nodes : NodeExec(n)) /\ UNCHANGED hist
+     \/ (\E n \in Nodes : NodeExec(n) \/ FoldWrite(n)) /\ UNCHANGED hist
      \/ (\E c \in 1..Len(cmds) : Assemble(c)) /\ UNCHANGED hist
   /\ UNCHANGED finished
 GenSpec == GenInit /\ [][GenNext \/ Finish]_gvars
